@@ -12,6 +12,13 @@ impl<'a> Exec<'a> {
         let st = &self.w.actors[id];
         st.pre_fail.store(spec.pre_fail, Ordering::SeqCst);
         st.post_fail.store(spec.post_fail, Ordering::SeqCst);
+        st.pre_stop_fail.store(spec.pre_stop_fail, Ordering::SeqCst);
+        st.post_stop_fail.store(spec.post_stop_fail, Ordering::SeqCst);
+        assert!(!spec.hold_drop || spec.pre_fail, "hold_drop is modelled for failed starts only");
+        st.hold_drop.store(spec.hold_drop, Ordering::SeqCst);
+        if !spec.hold_drop {
+            st.gates[DROP_GATE].open();
+        }
         for h in HOOKS {
             if !spec.holds[h as usize] {
                 st.gates[h as usize].open();
@@ -99,6 +106,7 @@ impl<'a> Exec<'a> {
             Step::Open(a) => {
                 match self.model.actors.get(*a).map(|x| x.phase) {
                     Some(Phase::Hook(h)) => self.w.actors[*a].gates[h as usize].open(),
+                    Some(Phase::DropHeld) => self.w.actors[*a].gates[DROP_GATE].open(),
                     Some(Phase::Handling(m)) => self.w.msgs[m].gate.open(),
                     _ => return false,
                 }
@@ -272,6 +280,7 @@ impl<'a> Exec<'a> {
                 Phase::Handling(m) => format!("@msg{m}"),
                 Phase::Exited => format!("exit{:?}", ma.exit),
                 Phase::StartFailed => "startfailed".into(),
+                Phase::DropHeld => "startfailed@ValueDrop".into(),
                 Phase::Refused => "refused".into(),
             };
             s.push_str(&format!("a{a}:{ph}/q{} ", ma.queue.len()));
@@ -468,7 +477,37 @@ impl<'a> Exec<'a> {
     }
 
     fn tally(&mut self) {
+        let (ran, turned, kept) = {
+            let m = &self.model;
+            // counted on the OBSERVED journals
+            let (mut ran, mut turned, mut kept) = (0u64, 0u64, 0u64);
+            for a in 0..m.actors.len() {
+                let j = self.obs_journal(a);
+                let pre_failed = j.contains(&EvK::HookEnd(Hook::PreStop, false));
+                let post_failed = j.contains(&EvK::HookEnd(Hook::PostStop, false));
+                let post_ran = j.iter().any(|e| matches!(e, EvK::HookEnd(Hook::PostStop, _)));
+                if pre_failed && post_ran {
+                    ran += 1;
+                }
+                if (pre_failed || post_failed) && post_ran {
+                    match (m.actors[a].handle, self.ra.get(a).map(|r| r.hobs.clone())) {
+                        (Some(Exit::Failed(c)), Some(HandleObs::Exit(Exit::Failed(o)))) if c == o => {
+                            if c == c19m::code_pre_stop(a) || c == c19m::code_post_stop(a) {
+                                turned += 1;
+                            } else {
+                                kept += 1;
+                            }
+                        }
+                        _ => {}
+                    }
+                }
+            }
+            (ran, turned, kept)
+        };
         let c = &mut self.res.counters;
+        c.push(("c19_pre_stop_failed_post_stop_ran", ran));
+        c.push(("c19_stop_hook_failure_turned_stop_into_failed", turned));
+        c.push(("c19_stop_hook_failure_kept_earlier_failure", kept));
         let m = &self.model;
         let count = |f: &dyn Fn(&c19m::MMsg) -> bool| m.msgs.iter().filter(|x| f(x)).count() as u64;
         c.push(("c19_msgs_handled", count(&|x| x.handled)));
@@ -489,6 +528,7 @@ impl<'a> Exec<'a> {
             }
             n
         }));
+        c.push(("c19_name_reused_while_failed_actor_value_alive", m.actors.iter().filter(|a| a.reused_name_of_held && matches!(a.spawn, SpawnExp::Ok | SpawnExp::StartErr(_))).count() as u64));
         c.push(("c19_group_routed", count(&|x| x.via_group && x.deliver == Deliver::Ok)));
         c.push(("c19_group_handed_back", count(&|x| x.via_group && x.deliver != Deliver::Ok)));
         c.push(("c19_supervisor_respawn", m.actors.iter().filter(|a| a.spawned_by_supervisor).count() as u64));
